@@ -30,3 +30,65 @@ package chord
 //@ func Attribute.validate returns (err)
 //@   pure
 //@   ensures (err == nil) == (a.Name != "")
+
+// ---- building the dictionary (C16) ----
+
+//@ func Map.GetChord returns (c, ok)
+//@   pure
+//@   ensures ok == dom(m.chords, nameOrDisplay)
+//@   ensures ok ==> c == m.chords[nameOrDisplay]
+
+//@ func Map.GetAttribute returns (a, ok)
+//@   pure
+//@   ensures ok == dom(m.attributes, name)
+//@   ensures ok ==> a == m.attributes[name]
+
+// ---- inheritance: a symbol expands to its parent's notes (transitively) followed by its own (C16) ----
+
+//@ define chordsOf(m) heap(map[string]Chord)[m.chords]
+//@ define rankOf(m) spec.dictRank(m.chords)
+// following `extends` ends: some rank decreases along every parent link that exists (what NewMap's validation is there to ensure)
+//@ define acyclic(m) forall(k, string, dom(m.chords, k) ==> rankOf(m)[k] >= 0 && (m.chords[k].Extends != "" && dom(m.chords, m.chords[k].Extends) ==> rankOf(m)[m.chords[k].Extends] < rankOf(m)[k]))
+//@ define nInh(m, n) spec.inhLen(chordsOf(m), rankOf(m), n)
+//@ define inhAttr(m, n, j) m.attributes[spec.inhName(chordsOf(m), rankOf(m), heap([]string), n, j)]
+
+//@ func Map.GetChordAttributes returns (attrs, ok)
+//@   allocs []Attribute
+//@   requires acyclic(m)
+//@   decreases ite(dom(m.chords, nameOrDisplay), rankOf(m)[nameOrDisplay] + 1, 0)
+//@   ensures ok == dom(m.chords, nameOrDisplay)
+//@   ensures !ok ==> len(attrs) == 0
+//@   ensures ok ==> len(attrs) == nInh(m, nameOrDisplay)
+//@   ensures ok ==> forall(j, 0, len(attrs), attrs[j] == inhAttr(m, nameOrDisplay, j))
+//@   loop 0 allocs []Attribute
+//@   loop 0 invariant 0 - 1 <= rangeindex && rangeindex < len(c.Attributes)
+//@   loop 0 invariant len(attrs) == nInh(m, nameOrDisplay) - len(c.Attributes) + rangeindex + 1
+//@   loop 0 invariant forall(j, 0, len(attrs), attrs[j] == inhAttr(m, nameOrDisplay, j))
+//@   loop 0 decreases len(c.Attributes) - rangeindex
+
+// ---- an inconsistent dictionary is refused (C16) ----
+// checked for every entry of the chord table, under whichever name it is reached
+//@ define attrsKnown(m, c) forall(j, 0, len(c.Attributes), dom(m.attributes, c.Attributes[j]))
+//@ define parentKnown(m, c) c.Extends != "" ==> dom(m.chords, c.Extends)
+// the first step of the cycle check: a chord's parent does not carry the chord's own name
+//@ define notOwnParent(m, c) c.Extends != "" && dom(m.chords, c.Extends) ==> m.chords[c.Extends].Name != c.Name
+//@ define entryOK(m, c) attrsKnown(m, c) && parentKnown(m, c) && notOwnParent(m, c)
+
+//@ func Map.validate returns (err)
+//@   allocs []Iface, map[string]bool
+//@   ensures err == nil ==> forall(k, string, dom(m.chords, k) ==> entryOK(m, m.chords[k]))
+//@   loop 0 allocs []Iface, map[string]bool
+//@   loop 0 invariant forall(i, 0, len(errs), errs[i] != nil)
+//@   loop 0 invariant len(errs) == 0 ==> forall(k, string, rangeseen(k) ==> entryOK(m, m.chords[k]))
+//@   loop 1 allocs []Iface
+//@   loop 1 invariant 0 - 1 <= rangeindex && rangeindex < len(c.Attributes)
+//@   loop 1 invariant forall(i, 0, len(errs), errs[i] != nil)
+//@   loop 1 invariant len(errs) == 0 ==> forall(k, string, rangeseen(k) && k != rangekey() ==> entryOK(m, m.chords[k]))
+//@   loop 1 invariant len(errs) == 0 ==> forall(j, 0, rangeindex + 1, dom(m.attributes, c.Attributes[j]))
+//@   loop 1 decreases len(c.Attributes) - rangeindex
+//@   loop 2 allocs []Iface
+//@   loop 2 modifies seen
+//@   loop 2 invariant len(errs) == 0 ==> forall(k, string, rangeseen(k) && k != rangekey() ==> entryOK(m, m.chords[k]))
+//@   loop 2 invariant len(errs) == 0 ==> attrsKnown(m, c) && parentKnown(m, c)
+//@   loop 2 invariant dom(seen, c.Name) && seen[c.Name]
+//@   loop 2 invariant len(errs) == 0 ==> x == c.Extends || notOwnParent(m, c)
